@@ -33,7 +33,7 @@ CHAIN_CLASSES = ['chain3-pow', 'chain3-mul', 'chain3-add', 'chain3-cmp', 'chain3
 CMP_CLASSES = ['cmp-' + o for o in R.CMPOPS]
 FN_CLASSES = ['fn-' + f for f in R.F1 + R.F2]
 UNA_CLASSES = ['una-%s-%s' % (s, b) for s in ('add', 'sub') for b in ('leading', 'before-add', 'before-sub', 'after-operator', 'binary')]
-ILL_CLASSES = ['ill-paren-insert', 'ill-paren-delete', 'ill-arity-more', 'ill-arity-fewer', 'ill-operand-deleted',
+ILL_CLASSES = ['ill-paren-insert', 'ill-paren-delete', 'ill-arity-more', 'ill-arity-empty-argument', 'ill-arity-fewer', 'ill-operand-deleted',
                'ill-edit-still-wellformed', 'ill-must-be-rejected']
 REQUIRED_CLASSES = (LEVEL_CLASSES + CHAIN_CLASSES + CMP_CLASSES + FN_CLASSES + UNA_CLASSES + ILL_CLASSES +
                     ['unary-before-pow', 'nesting>=3', 'blank-variant', 'logical-result', 'numeric-result', 'docs-example'])
@@ -107,6 +107,9 @@ def gen_edit(rng, ast):
             node = node[p]
         delta = rng.choice([1, -1])
         if delta == 1:
+            if rng.random() < 0.3:
+                # one argument too many whose text is EMPTY: trailing, leading or doubled separator  sin(1,)  pow(,2,3)
+                return dict(k=k, path=list(path), delta=1, pos=rng.randint(0, len(node[2])), extra=['hole'], empty=True)
             g = R.Gen(rng, maxdepth=1, size=0.3)
             return dict(k=k, path=list(path), delta=1, pos=rng.randint(0, len(node[2])), extra=g.add(1))
         return dict(k=k, path=list(path), delta=-1, pos=rng.randrange(len(node[2])))
@@ -233,7 +236,7 @@ def apply_edit(ast, edit):
             else:
                 del args[edit['pos']]
             return ['f', node[1], args]
-        return R.tokens(R.replace(ast, tuple(edit['path']), fn)), None, 'ill-arity-more' if edit['delta'] == 1 else 'ill-arity-fewer'
+        return R.tokens(R.replace(ast, tuple(edit['path']), fn)), None, ('ill-arity-empty-argument' if edit.get('empty') else 'ill-arity-more') if edit['delta'] == 1 else 'ill-arity-fewer'
 
     def fn(node):
         opnds = list(node[2])
